@@ -6,7 +6,7 @@
      envseen                        per passed variable, the values found under its name in the environment
      onexit                         the calls of OnExit until the harness closed the command
    TLC evaluates the statement's formula (ExtCmd.tla layer 2) on every record; records that differ from
-   layer 1 (split, then os.Expand; exit code discarded) are DRIFT.                                    *)
+   layer 1 (split, then os.Expand; exit code reported, or the deviation selected by L1Variant) are DRIFT.                                    *)
 EXTENDS ExtCmd
 
 Trace == ndJsonDeserialize("C21_trace.ndjson")
@@ -16,13 +16,15 @@ TraceInit == l = 0 /\ fam = "one" /\ first = PieceList[1] /\ prof = 1 /\ done = 
 TraceNext == l < Len(Trace) /\ l' = l + 1 /\ UNCHANGED vars
 TraceSpec == TraceInit /\ [][TraceNext]_<<l, vars>>
 
+FirstNums(r) == IF r.onexit = <<>> THEN <<>> ELSE r.onexit[1].nums
 L1Conforms(r) ==
     /\ r.argv = r.l1                    \* L1Argv(tmpl, env), computed by TLC when the case was generated
-    /\ (IF r.onexit = <<>> THEN <<>> ELSE r.onexit[1].nums) = (IF r.status = 0 /\ ~r.restart THEN <<>> ELSE L1OnExit(r.status, r.restart))
+    /\ FirstNums(r) = L1OnExit(r.status, r.restart)
 
 Verdicts ==
     l >= 1 => LET r == Trace[l]  f == Failing(r) IN
-              /\ Monitor(f = {}, [l |-> l, monitors |-> f, badargs |-> ArgValueBad(r), badenv |-> EnvBad(r)])
+              /\ Monitor(f = {}, [l |-> l, monitors |-> f, badargs |-> ArgValueBad(r), badenv |-> EnvBad(r),
+                                   deviation |-> DeviationOf(FirstNums(r), r.status, r.restart)])
               /\ (L1Conforms(r) \/ Emit("DRIFT", [l |-> l]))
 Accepted == TLCGet("stats").diameter - 1 = Len(Trace)
 =============================================================================
